@@ -55,6 +55,14 @@ CHECKS.update({
         'note': 'trusted: oracle parse_number (exact rationals); leading-zero integers may be read as decimal or octal',
         'technique': 'boundary-value generation with an arbitrary-precision reference oracle on real executions, under ASan/UBSan',
     },
+    'C10': {
+        'text': 'Random field sequences built by the production factory; ownership of bits discovered black-box by encoding one field at a '
+                'time, compared with an independent layout rule; agreement of getLength/usedLength/accepted data size; set decode equals '
+                'single-field decodes; foreign bit flips and prefilled writes show locality.',
+        'design_ref': 'DESIGN.md section 2, C10',
+        'note': 'trusted: layout rule in checks/c10.py ref_layout (bit fields may share or start a fresh byte); overlapping bit definitions are not generated',
+        'technique': 'black-box ownership discovery + metamorphic locality/composition monitors on real executions, under ASan/UBSan',
+    },
     'C12': {
         'text': 'Random histories of codec operations incl. failing/overflowing ones; probes are executed in a pristine forked child and in the '
                 'history process (same or new thread) and must agree bit for bit; shared-stream formatting must equal separate formatting.',
